@@ -138,6 +138,8 @@ func (d *deciderA) observe(c cell) (direct bool, hook string, detail string) {
 	switch {
 	case err != nil:
 		return direct, "error", err.Error()
+	case r.Panic != "":
+		return direct, "error", r.Panic
 	case r.HTTPStatus != 200:
 		return direct, "error", fmt.Sprintf("HTTP %d %s", r.HTTPStatus, r.Message)
 	case !r.Allowed || r.Message != "":
